@@ -62,6 +62,11 @@ def reference_input(sig, ops):
         k = op[0]
         if k == "new":
             labs[op[2]] = m.new(op[1])
+            if len(op) > 3:
+                # element of a member type created inside model op[3]: membership holds by construction
+                mt = sig.th.get("member_types", {}).get(op[1])
+                if mt and op[3] in labs:
+                    m.rels[mt[1]].add((labs[op[3]], labs[op[2]]))
         elif k == "newenum":
             args = op[3:-1]
             if any(a not in labs for a in args):
